@@ -702,7 +702,11 @@ impl TypeSpace {
                 type_entry
             }
             TypeEntryDetails::Struct(details) => {
-                details.default = default;
+                // Struct conversion consumes the metadata (and records the
+                // default itself); don't discard what it found.
+                if default.is_some() {
+                    details.default = default;
+                }
                 type_entry
             }
             TypeEntryDetails::Newtype(details) => {
